@@ -1,7 +1,7 @@
 (* C06 - Symbolic arithmetic on models is pointwise arithmetic on energies.
    Only statements; every proof is `exact <lemma>`. *)
 From Coq Require Import List ZArith QArith Qcanon Bool Arith.
-From Dimod Require Import Base.Util Model.Poly Model.Sym Model.SymStore Proofs.PolyFacts Proofs.SymFacts Proofs.SymStoreFacts Model.OpsLang Gen.Gen_Ops Model.Ops Proofs.OpsFacts.
+From Dimod Require Import Base.Util Model.Poly Model.Sym Model.SymStore Proofs.PolyFacts Proofs.SymFacts Proofs.SymStoreFacts Model.OpsLang Gen.Gen_Ops Gen.Gen_AddVar Model.Ops Proofs.OpsFacts Proofs.AddVarFacts Proofs.OpsUnaryFacts.
 Import ListNotations.
 Open Scope Qc_scope.
 
@@ -217,6 +217,54 @@ Theorem C06_gen_sub_spec :
 Proof. exact g_sub_spec. Qed.
 Print Assumptions C06_gen_sub_spec.
 
+(* the translated __neg__ / __pos__ (unary - and +) of every operand kind give what the model specifies *)
+Theorem C06_gen_neg_correct : forall a, wfv a -> requiv (g_neg a) (v_neg a).
+Proof. exact g_neg_correct. Qed.
+Print Assumptions C06_gen_neg_correct.
+
+Theorem C06_gen_pos_correct : forall a, wfv a -> requiv (g_pos a) (v_pos a).
+Proof. exact g_pos_correct. Qed.
+Print Assumptions C06_gen_pos_correct.
+
+(* ---- add_variable on an existing label (the merge step of QM.__mul__), as read from
+   cyqm_template.pyx.pxi by translators/qm_addvar.py (Gen/Gen_AddVar.v) ---- *)
+(* a re-declaration is accepted exactly when it is compatible: same vartype and, for INTEGER / REAL,
+   every bound that is passed (zero, negative, equal to the other bound, ...) is the existing one *)
+Theorem C06_gen_addvar_accepts_iff_compatible :
+  forall have vt lb ub, gen_addvar_existing have vt lb ub = None <-> redecl_ok have vt lb ub.
+Proof. exact gen_addvar_existing_accepts. Qed.
+Print Assumptions C06_gen_addvar_accepts_iff_compatible.
+
+Theorem C06_gen_addvar_rejection_kind :
+  forall have vt lb ub e, gen_addvar_existing have vt lb ub = Some e ->
+  (vi_vt have <> vt /\ e = ETypeError) \/ (vi_vt have = vt /\ bounded_vt vt /\ e = EValueError).
+Proof. exact gen_addvar_existing_kind. Qed.
+Print Assumptions C06_gen_addvar_rejection_kind.
+
+(* the boolean the check evaluates on the observations is that specification *)
+Theorem C06_redecl_oracle_sound :
+  forall have vt lb ub, redecl_ok_b have vt lb ub = true <-> redecl_ok have vt lb ub.
+Proof. exact redecl_ok_b_spec. Qed.
+Print Assumptions C06_redecl_oracle_sound.
+
+(* called with both bounds explicit (QM.__mul__) it is the model's rule, so conflicting vartypes or
+   bounds of a shared label are rejected whichever operand carries which *)
+Theorem C06_gen_mul_rule : forall have new, gen_mul_err have new = mul_err have new.
+Proof. exact gen_mul_err_eq. Qed.
+Print Assumptions C06_gen_mul_rule.
+
+Theorem C06_gen_mul_conflict_rejected : forall have new, clash have new -> exists e, gen_mul_err have new = Some e.
+Proof. exact gen_mul_err_clash. Qed.
+Print Assumptions C06_gen_mul_conflict_rejected.
+
+(* the translated product block of QM.__mul__ (variable merge through add_variable, REAL interactions
+   refused, the equal-label table) is the specified product of two linear QMs *)
+Theorem C06_gen_qm_product_correct :
+  forall x y, m_cls x = CQm -> m_cls y = CQm -> is_linear x = true -> is_linear y = true ->
+    product_qm qm_table x y = m_mul x y.
+Proof. exact product_qm_correct. Qed.
+Print Assumptions C06_gen_qm_product_correct.
+
 (* ---- non-vacuity: the hypotheses are satisfiable on non-trivial data ---- *)
 Definition xb := Var KBin 0%nat 0 1.
 Definition ss := Var KSpin 1%nat (- (1)) 1.
@@ -268,3 +316,19 @@ Proof. vm_compute. reflexivity. Qed.
 (* degree three is a TypeError *)
 Example C06_degree_three : eval (Mul (Mul xb ss) ii) = Err ETypeError.
 Proof. vm_compute. reflexivity. Qed.
+
+(* an upper bound of exactly 0 (or a degenerate interval) on either operand of a product is compared *)
+Definition iw := Var KInt 2%nat (qc (-5) 1) (qc 5 1).
+Definition inp := Var KInt 2%nat (qc (-5) 1) 0.
+Example C06_clash_zero_upper_mul : eval (Mul iw inp) = Err EValueError /\ eval (Mul inp iw) = Err EValueError.
+Proof. vm_compute. split; reflexivity. Qed.
+Example C06_clash_zero_upper_mul_gen : eval_gen (Mul iw inp) = Err EValueError /\ eval_gen (Mul inp iw) = Err EValueError.
+Proof. vm_compute. split; reflexivity. Qed.
+Example C06_zero_upper_square : coeffs_are (Mul inp inp) (CQm) (0) [0;0;0;0] [0;0;1;0;0;0] = true.
+Proof. vm_compute. reflexivity. Qed.
+Example C06_addvar_zero_bound :
+  gen_addvar_existing (mkVI INTEGER (qc (-4) 1) (qc 4 1)) INTEGER (Some (qc (-4) 1)) (Some 0) = Some EValueError
+  /\ gen_addvar_existing (mkVI INTEGER (qc (-4) 1) (qc 4 1)) INTEGER None (Some (qc 4 1)) = None
+  /\ gen_addvar_existing (mkVI INTEGER 0 (qc 4 1)) INTEGER (Some (qc (-1) 1)) None = Some EValueError
+  /\ gen_addvar_existing (mkVI INTEGER 0 (qc 4 1)) REAL None None = Some ETypeError.
+Proof. vm_compute. repeat split; reflexivity. Qed.
